@@ -137,6 +137,9 @@ class PathEval:
                     cur = self.env[c.func.value.id]
                     add = self.ev(ast.List(elts=[c.args[0]], ctx=ast.Load())) if c.func.attr == "append" else self.ev(c.args[0])
                     self.env[c.func.value.id] = self.nf._binop_polys(cur, add, ast.Add())
+                    if cur.single_atom() is not None and c.func.attr == "append" and (cur.single_atom().startswith("self.") or "." in cur.single_atom().split("[")[0]):
+                        # the local is an alias of a container held in an attribute (ep = self.episodes[-1]; ep.append(v)): same effect
+                        self.appended.append((nid, cur.single_atom(), self.ev(c.args[0])))
                 elif isinstance(c, ast.Call) and isinstance(c.func, ast.Attribute) and c.func.attr in ("append", "extend") and isinstance(c.func.value, (ast.Attribute, ast.Subscript)) and len(c.args) == 1 and not c.keywords:
                     # the same for containers held in attributes / dict entries: self.xs[key].append(v)
                     key = self.target_key(c.func.value)
